@@ -53,6 +53,9 @@ func SolverArgv(name string, timeoutMs int) []string {
 		return []string{name, "-in", fmt.Sprintf("-t:%d", timeoutMs)}
 	case "cvc5":
 		return []string{"cvc5", "--incremental", "--produce-models", "--lang=smt2", fmt.Sprintf("--tlimit-per=%d", timeoutMs)}
+	case "cvc5-int":
+		// bit-vectors solved as integers modulo 2^k: decides chains of 64-bit add/sub/compare that bit-blasting does not
+		return []string{"cvc5", "--incremental", "--produce-models", "--lang=smt2", "--solve-bv-as-int=sum", fmt.Sprintf("--tlimit-per=%d", timeoutMs)}
 	}
 	return []string{name}
 }
@@ -89,7 +92,7 @@ func (s *Solver) start() error {
 }
 
 func (s *Solver) prelude() {
-	if s.Name == "cvc5" {
+	if s.Name == "cvc5" || s.Name == "cvc5-int" {
 		s.send("(set-logic ALL)")
 	}
 	s.send("(set-option :produce-models true)")
